@@ -28,6 +28,7 @@ fn top(nhays: u8) -> impl Strategy<Value = TOp> {
         2 => h.clone().prop_map(TOp::Rfind),
         2 => h.clone().prop_map(TOp::FindIter),
         2 => (b.clone(), h.clone(), 0u8..4).prop_map(|(a, h, k)| TOp::HandOff(a, h, k)),
+        5 => (h.clone(), any::<u8>(), any::<u8>(), 0u8..3).prop_map(|(h, n, c, r)| TOp::OneShot(h, n, c, r)),
     ]
 }
 
@@ -78,7 +79,7 @@ fn same_first_routine(p: &Program) -> bool {
     let mut n = 0;
     for i in 0..p.threads.len() {
         for j in i + 1..p.threads.len() {
-            if kind(&p.threads[i][0]) == kind(&p.threads[j][0]) && !matches!(p.threads[i][0], TOp::Find(_) | TOp::Rfind(_) | TOp::FindIter(_)) {
+            if kind(&p.threads[i][0]) == kind(&p.threads[j][0]) && !matches!(p.threads[i][0], TOp::Find(_) | TOp::Rfind(_) | TOp::FindIter(_) | TOp::OneShot(..)) {
                 n += 1;
             }
         }
